@@ -106,6 +106,11 @@ R_Ovl2     == {<<-1, -1>>, <<3, 6>>}
 R_Post     == {<<-1, -1>>, <<0, 3>>, <<2, 2>>}
 R_Big      == {<<-1, -1>>, <<4, 8195>>}
 R_Auto     == {<<-1, -1>>}
+\* image starts of every phase of the lane period (1, 2, 3 mod 4), window length two periods of 4; with Starts
+\* {1..6, 8} a further record lies at every residue of the distance to the image start (P2Bin_MC_phase*.cfg,
+\* P2Bin_CoverPhase*.cfg)
+R_Phase    == {<<-1, -1>>, <<1, 8>>, <<2, 9>>, <<3, 10>>}
+L_Thin     == Lanes \ {"ALL"}
 R_Explicit == {<<0, 3>>}
 CS_One     == {<<81, 1>>}
 CS_Mixed   == {<<81, 1>>, <<97, 1>>, <<81, 2>>}
